@@ -14,7 +14,7 @@ from ..core import VB, nproc
 from ..par import pmap, chunks
 from . import c12
 
-PROGS = ["nop", "wait", "halt", "off", "isr_clear", "imr_on"]
+PROGS = ["nop", "wait", "halt", "off", "isr_clear", "imr_on", "rst"]
 TIMERS = [(True, 1, 0), (True, 2, 0), (True, 3, 0), (True, 5, 0), (True, 0, 2), (True, 0, 3), (True, 2, 3), (True, 3, 2), (True, 4, 6),
           (True, 7, 5), (False, 2, 3), (True, 0, 0)]
 IMRS = [0x00, 0x81, 0x83]
@@ -68,7 +68,7 @@ def monitor(impl: str, name: str, cfg, obs: List[Dict[str, Any]], vb: VB, wit, s
                        f"the period {period}", wit)
             if nxt != p:
                 fires.append((k, tname))
-            if p <= c0 and not (isr & bit) and "isr_clear" not in name and "|clr|" not in name:
+            if p <= c0 and not (isr & bit) and "isr_clear" not in name and "|clr|" not in name and not name.startswith("rst|"):      # RESET clears the status register
                 vb.add(f"C13/machine/{impl}/crossed-boundary-without-status-bit/{tname}", f"{impl} {name}: step {k}: counter {c0}->{c1} passed the {tname} "
                        f"boundary {p} but ISR={isr:#04x}", wit)
             if newly and p > c1:
